@@ -501,14 +501,20 @@ mod boxed {
   impl Eq for Value {}
 
   impl std::hash::Hash for Value {
-    /// Hash numbers by their truncated value, as the unboxed representation
-    /// does, so every pair of equal numbers hashes the same
+    /// Hash exactly what the unboxed representation hashes, the kind followed
+    /// by the payload with numbers truncated, so every pair of equal numbers
+    /// hashes the same and maps keyed by numbers, booleans and nil iterate in
+    /// the same order in both representations
     #[inline]
     fn hash<H: std::hash::Hasher>(&self, state: &mut H) {
-      if self.is_num() {
-        (self.to_num() as u64).hash(state);
-      } else {
-        self.0.hash(state);
+      let kind = self.kind();
+      kind.hash(state);
+
+      match kind {
+        ValueKind::Number => (self.to_num() as u64).hash(state),
+        ValueKind::Bool => self.to_bool().hash(state),
+        ValueKind::Nil | ValueKind::Undefined => (),
+        ValueKind::Obj => self.to_obj().hash(state),
       }
     }
   }
